@@ -37,8 +37,8 @@ def model_bin(opn, A, B):
     for l in range(L):
         if np.isscalar(B):
             b = B
-        elif B.ndim == 2:
-            b = B
+        elif B.ndim <= 2:
+            b = B          # 0-d, (r,), (r,1), (1,r), (r,r): numpy's per-matrix broadcasting
         elif B.shape[0] == 1:
             b = B[0]
         else:
@@ -62,6 +62,8 @@ class World(BaseWorld):
         rc, ro = st.get('config'), st.get('ops')
         r = rc.choice([1, 2, 2, 3, 3, 4, 5])
         L = rc.choice([1, 2, 3, 5, 8, 16, 31, 64, rc.randrange(1, 65)])
+        if rc.random() < 0.15:
+            L = r              # length == rank: a 1-D operand of that size is one value per column, not per matrix
         npool = rc.randrange(2, 5)
         # per-run flag mix (swarm): sometimes all equal, sometimes uniform
         mode = rc.random()
@@ -73,7 +75,9 @@ class World(BaseWorld):
         types = rc.choice(TYPESETS[r])
         n = rc.randrange(2, 16)
         w = {'bin': rc.uniform(2, 6), 'dot': rc.uniform(0.5, 2), 'invert': rc.uniform(0.3, 1.5), 'copy': rc.uniform(0.2, 1),
-             'setitem': rc.uniform(0.3, 1.5), 'getitem': rc.uniform(0.2, 1), 'badtype': rc.uniform(0, 0.4)}
+             'setitem': rc.uniform(0.3, 1.5), 'getitem': rc.uniform(0.2, 1), 'badtype': rc.uniform(0, 0.4),
+             'new_identity': rc.uniform(0, 0.8)}
+        n_identity = rc.choice([0, 0, 1, 2])
         p_inplace = rc.uniform(0.2, 0.8)
         names = sorted(w)
         ops = []
@@ -83,7 +87,8 @@ class World(BaseWorld):
             if k == 'bin':
                 o.update(fn=ro.choice(sorted(BIN)), inplace=ro.random() < p_inplace,
                          kind=ro.choices(['scalar', 'ndarray', 'ma', 'ma1', 'self'], [2, 2, 5, 2, 1])[0],
-                         j=ro.randrange(16), nd=ro.choice(['full', 'rr', 'L11']), scalar=ro.choice([2.0, -0.5, 3, 0.25, 1.5]))
+                         j=ro.randrange(16), nd=ro.choice(['full', 'rr', 'L11', 'r', 'r', 'r1', '1r', '0d', 'list_r']),
+                         scalar=ro.choice([2.0, -0.5, 3, 0.25, 1.5]))
             elif k == 'dot':
                 o.update(how=ro.choice(['dot', 'dot_inplace', 'matmul', 'imatmul']), j=ro.randrange(16),
                          selfop=ro.random() < 0.15)
@@ -93,8 +98,10 @@ class World(BaseWorld):
                 o.update(a=ro.randrange(r), b=ro.randrange(r), scalar=ro.random() < 0.2)
             elif k == 'badtype':
                 o.update(which=ro.choice(['get', 'set']), pos=ro.randrange(2), a=ro.randrange(r))
+            elif k == 'new_identity':
+                o.update(space=ro.choice(SPACES))
             ops.append(o)
-        return {'config': {'rank': r, 'length': L, 'flags': flags, 'types': types}, 'ops': ops}
+        return {'config': {'rank': r, 'length': L, 'flags': flags, 'types': types, 'n_identity': n_identity}, 'ops': ops}
 
     def run(self, case, ctx):
         pp = import_pyprism()
@@ -111,6 +118,21 @@ class World(BaseWorld):
         for n, fl in enumerate(cfg['flags']):
             pool.append(new_entry(gen_data((seed, 'pool', n), L, r), fl))
         dens = new_entry(gen_data((seed, 'dens'), 1, r), 'NonSpatial')   # density-like, length 1
+
+        def new_identity(space, site, step):
+            I = lib('IdentityMatrixArray()', pp.IdentityMatrixArray, length=L, rank=r, space=SP[space], types=list(types))
+            eye = np.broadcast_to(np.eye(r), (L, r, r))
+            d = np.asarray(I.data)
+            if d.shape != eye.shape or not np.array_equal(d, eye):
+                raise Violation('new_identity_array_is_not_the_identity', site, {'max_abs_dev': float(np.max(np.abs(d - eye))) if d.shape == eye.shape else 'shape'}, step)
+            for n, e in enumerate(pool + [dens]):
+                if np.shares_memory(d, e['ma'].data):
+                    raise Violation('result_shares_memory_with_operand', site, {'pool_index': n}, step)
+            ctx.probe('identity_array_in_pool')
+            return {'ma': I, 'model': np.array(eye, copy=True), 'space': space}
+
+        for n in range(cfg.get('n_identity', 0)):
+            pool.append(new_identity(cfg['flags'][n % len(cfg['flags'])], 'IdentityMatrixArray()', -1))
         ctx.probe('rank%d' % r)
         if L == 1:
             ctx.probe('length1')
@@ -169,13 +191,24 @@ class World(BaseWorld):
                 if kind == 'scalar':
                     B_lib, B_model = op['scalar'], op['scalar']
                 elif kind == 'ndarray':
-                    shp = {'full': (A['model'].shape[0], r, r), 'rr': (r, r), 'L11': (A['model'].shape[0], 1, 1)}[op['nd']]
-                    arr = gen_data((seed, 'nd', step), shp[0] if len(shp) == 3 else 1, r)
-                    if op['nd'] == 'rr':
+                    ndk = op['nd']
+                    arr = gen_data((seed, 'nd', step), A['model'].shape[0] if ndk in ('full', 'L11') else 1, r)
+                    if ndk == 'rr':
                         arr = arr[0]
-                    elif op['nd'] == 'L11':
+                    elif ndk == 'L11':
                         arr = arr[:, :1, :1]
-                    B_lib, B_model = arr, np.copy(arr)
+                    elif ndk in ('r', 'list_r'):
+                        arr = np.ascontiguousarray(arr[0, 0, :])          # one value per column of every matrix
+                    elif ndk == 'r1':
+                        arr = np.ascontiguousarray(arr[0, :, :1])         # one value per row
+                    elif ndk == '1r':
+                        arr = np.ascontiguousarray(arr[0, :1, :])
+                    elif ndk == '0d':
+                        arr = np.array(float(arr[0, 0, 0]))
+                    B_lib, B_model = (arr.tolist() if ndk == 'list_r' else arr), np.copy(arr)
+                    ctx.probe('nd_' + ndk)
+                    if arr.ndim == 1 and arr.shape[0] == A['model'].shape[0] and r > 1:
+                        ctx.probe('nd_1d_operand_length_equals_rank')
                 elif kind == 'ma1':
                     B_lib, B_model, other_space = dens['ma'], dens['model'], dens['space']
                     ctx.probe('broadcast_len1')
@@ -223,7 +256,7 @@ class World(BaseWorld):
                     e = {'ma': R, 'model': want}
                     check_entry(e, pk, step)
                     add_result(R, want, A['space'])
-                if kind == 'ndarray' and not np.array_equal(B_lib, B_model):
+                if kind == 'ndarray' and not np.array_equal(np.asarray(B_lib), B_model):
                     raise Violation('ndarray_operand_modified', pk, None, step)
                 ctx.probe(pk)
             elif k == 'dot':
@@ -336,6 +369,16 @@ class World(BaseWorld):
                     must_raise('setitem_unknown', (ValueError,), A['ma'].__setitem__, tuple(key), 1.0)
                     unchanged(before, snap(), set(), 'setitem_unknown', step)
                 ctx.probe('unknown_type_' + op['which'])
+            elif k == 'new_identity':
+                # an identity array created now is the identity whatever was done to earlier ones, and is a bystander afterwards
+                e = new_identity(op['space'], 'IdentityMatrixArray()', step)
+                unchanged(before, snap(), set(), 'IdentityMatrixArray()', step)
+                if len(pool) < 7:
+                    pool.append(e)
+                else:
+                    pool[len(pool) - 1] = e
+                if any(x.get('nin', 0) >= 1 for x in pool):
+                    ctx.probe('identity_created_after_inplace_ops')
             if any(e.get('nin', 0) >= 2 for e in pool):
                 ctx.probe('two_inplace_same_array')
                 ctx.nontrivial = True
@@ -352,7 +395,9 @@ class World(BaseWorld):
 
     def expected_probes(self, tier):
         ex = ['broadcast_len1', 'refused_inplace', 'refused_outofplace', 'refused_dot', 'get_copy', 'two_inplace_same_array',
-              'unknown_type_get', 'unknown_type_set', 'setitem_offdiag', 'invert', 'invert_i', 'length1']
+              'unknown_type_get', 'unknown_type_set', 'setitem_offdiag', 'invert', 'invert_i', 'length1', 'identity_array_in_pool',
+              'identity_created_after_inplace_ops', 'nd_1d_operand_length_equals_rank', 'nd_r', 'nd_r1', 'nd_1r', 'nd_0d', 'nd_list_r',
+              'nd_full', 'nd_rr', 'nd_L11']
         if tier == 'thorough':
             for fn in sorted(BIN):
                 for ip in ('', '_i'):
@@ -370,8 +415,9 @@ class World(BaseWorld):
 
     def rule(self):
         return ('Each run = one seed -> rank 1-5, length 1-64, pool of 2-4 MatrixArrays with flags from {Real,Fourier,NonSpatial} plus one '
-                'length-1 NonSpatial density-like array, then 2-15 ops over {+,-,*,/ (out-of-place / in-place) with scalar | ndarray '
-                '(full,(r,r),(L,1,1)) | MatrixArray | length-1 MatrixArray | itself; dot/@/@=/dot(inplace); invert in/out of place; get_copy '
+                'length-1 NonSpatial density-like array and 0-2 IdentityMatrixArrays (15% of runs have length == rank), then 2-15 ops over '
+                '{new IdentityMatrixArray (must be the identity, sharing no memory), +,-,*,/ (out-of-place / in-place) with scalar | ndarray '
+                '(full,(r,r),(L,1,1),(r,),(r,1),(1,r),0-d, python list) | MatrixArray | length-1 MatrixArray | itself; dot/@/@=/dot(inplace); invert in/out of place; get_copy '
                 '(+mutation of the copy); setitem/getitem by type names in both orders; unknown type names}. After every op: result vs '
                 'per-matrix numpy model, byte snapshots of every pool member (only the left operand of an in-place op may change), '
                 'shares_memory(result, every pool member) is False, Real x Fourier refused with AssertionError and no change, '
@@ -381,7 +427,7 @@ class World(BaseWorld):
         return '(rank, length==1?, set of flags in pool, op kind, operator, in-place?)'
 
     def components(self):
-        return {'real': ['pyPRISM.core.MatrixArray', 'pyPRISM.core.Space', 'numpy (einsum, linalg.inv)'],
+        return {'real': ['pyPRISM.core.MatrixArray', 'pyPRISM.core.IdentityMatrixArray', 'pyPRISM.core.Space', 'numpy (einsum, linalg.inv)'],
                 'stub': ['the calling script'], 'fault_kinds': 'none: SIM-H (history search only)'}
 
     def assumptions(self):
